@@ -653,3 +653,84 @@ pub fn replay(path: &str, scenarios: &[&'static dyn Scenario]) -> i32 {
         1
     }
 }
+
+// ------------------------------------------------------------------ determinism self-test
+
+/// worker: for idx ≡ wid (mod nworkers), idx < n: plan twice, run twice, write "idx h1 h2 planeq"
+pub fn selftest_worker(scn: &dyn Scenario, base_seed: u64, wid: u64, nworkers: u64, n: u64, out_path: &str) {
+    let env = Env::detect();
+    let mut lines = String::new();
+    let mut idx = wid;
+    while idx < n {
+        let seed = run_seed(base_seed, scn, idx);
+        let p1 = scn.plan(seed, idx, Tier::Quick, &env);
+        let p2 = scn.plan(seed, idx, Tier::Quick, &env);
+        let r1 = run_plan(scn, &p1, &env);
+        let r2 = run_plan(scn, &p2, &env);
+        let digest = |r: &RunResult| {
+            fnv1a(format!("{}|{:?}|{:?}|{:?}|{:?}", r.outcome.log_hash, r.outcome.violations, r.outcome.counters, r.outcome.schedule, r.crash).as_bytes())
+        };
+        lines.push_str(&format!("{idx} {} {} {}\n", digest(&r1), digest(&r2), (p1 == p2) as u8));
+        idx += nworkers;
+    }
+    std::fs::write(out_path, lines).expect("write selftest output");
+}
+
+/// driver: every scenario of `scenarios`, `n` seeds, each executed twice, at several worker
+/// counts; all digests must agree (twice-run and across worker counts).
+pub fn selftest(scenarios: &[&'static dyn Scenario], n: u64) -> i32 {
+    let env = Env::detect();
+    let base_seed: u64 = std::env::var("VERIF_SEED").ok().and_then(|s| s.parse().ok()).unwrap_or(1);
+    let _ = std::fs::create_dir_all(&env.shm);
+    let mut bad = 0u64;
+    let mut total = 0u64;
+    for scn in scenarios {
+        let mut by_w: Vec<BTreeMap<u64, u64>> = vec![];
+        for (w, count) in [(16u64, n), (4u64, n / 4), (1u64, n / 16)] {
+            let tmpdir = format!("{}/st-{}-{}-{w}", env.shm, std::process::id(), scn.name());
+            let _ = std::fs::create_dir_all(&tmpdir);
+            let mut kids = vec![];
+            for wid in 0..w {
+                let out = format!("{tmpdir}/w{wid}.txt");
+                let child = std::process::Command::new(self_exe())
+                    .args(["selftest-worker", scn.property(), scn.name(), &base_seed.to_string(), &wid.to_string(), &w.to_string(), &count.max(1).to_string(), &out])
+                    .spawn()
+                    .expect("spawn selftest worker");
+                kids.push((child, out));
+            }
+            let mut map = BTreeMap::new();
+            for (mut c, out) in kids {
+                let _ = c.wait();
+                for line in std::fs::read_to_string(&out).unwrap_or_default().lines() {
+                    let f: Vec<&str> = line.split(' ').collect();
+                    if f.len() == 4 {
+                        let idx: u64 = f[0].parse().unwrap_or(0);
+                        total += 1;
+                        if f[1] != f[2] || f[3] != "1" {
+                            bad += 1;
+                            println!("NONDETERMINISM {} {} idx {idx} at W={w}: {} vs {} (plans equal: {})", scn.property(), scn.name(), f[1], f[2], f[3]);
+                        }
+                        map.insert(idx, f[1].parse::<u64>().unwrap_or(0));
+                    }
+                }
+            }
+            let _ = std::fs::remove_dir_all(&tmpdir);
+            by_w.push(map);
+        }
+        for m in &by_w[1..] {
+            for (idx, h) in m {
+                if by_w[0].get(idx).is_some_and(|h0| h0 != h) {
+                    bad += 1;
+                    println!("NONDETERMINISM {} {} idx {idx}: digest differs between worker counts", scn.property(), scn.name());
+                }
+            }
+        }
+        println!("selftest {} {}: {} seeds at W=16, {} at W=4, {} at W=1, each executed twice", scn.property(), scn.name(), by_w[0].len(), by_w[1].len(), by_w[2].len());
+    }
+    println!("selftest: {total} double executions, {bad} mismatches");
+    if bad > 0 {
+        2
+    } else {
+        0
+    }
+}
